@@ -3,6 +3,7 @@ package main
 import (
 	"fmt"
 	"go/ast"
+	"go/constant"
 	"go/token"
 	"go/types"
 	"sort"
@@ -534,6 +535,21 @@ func (f *FuncCFG) evalCond(e ast.Expr, assume map[string]bool) (bool, bool) {
 		if x.Op == token.NOT {
 			v, ok := f.evalCond(x.X, assume)
 			return !v, ok
+		}
+	case *ast.BinaryExpr:
+		// `flag == false`, `true != flag`
+		if x.Op == token.EQL || x.Op == token.NEQ {
+			for _, pr := range [][2]ast.Expr{{x.X, x.Y}, {x.Y, x.X}} {
+				if tv, ok := f.Info.Types[pr[1]]; ok && tv.Value != nil && tv.Value.Kind() == constant.Bool {
+					if v, ok := f.evalCond(pr[0], assume); ok {
+						cv := constant.BoolVal(tv.Value)
+						if x.Op == token.EQL {
+							return v == cv, true
+						}
+						return v != cv, true
+					}
+				}
+			}
 		}
 	case *ast.Ident:
 		if o := f.Info.ObjectOf(x); o != nil {
